@@ -240,22 +240,22 @@ theorem schema_c03 (g : Globals) (hg : g.dialect = .mysql) (hio : g.ignoreOrder 
     (hpo : old.all Stmt.plainOpts = true) (hpn : new.all Stmt.plainOpts = true)
     (heo : execAll rc [] old = some dbO) (hen : execAll rc [] new = some dbN)
     (hdef : ∀ tb ∈ dbO ++ dbN, tb.name ≠ Migration.defaultMigrationTable)
-    (hnofk : ∀ tb ∈ dbO ++ dbN, tb.fks = [])
     (hboth : ∀ tbO ∈ dbO, ∀ tbN ∈ dbN, tbO.name = tbN.name →
       Abs.OrderCompatible tbN.colNames tbO.colNames ∧ (∀ n ∈ tbN.colNames ++ tbO.colNames, n ≠ "") ∧ tbO.pk = tbN.pk ∧
       (∀ dc : List String, (∀ c ∈ dc, c ∉ tbN.colNames) →
         ∀ s ∈ tbN.idxs, ∀ o ∈ tbO.idxs, o.name = s.name → o ≠ s → ∃ c ∈ o.cols, c ∉ dc) ∧
       (∀ dc : List String, (∀ c ∈ dc, c ∉ tbO.colNames) →
-        ∀ s ∈ tbN.idxs, ∀ o ∈ tbO.idxs, o.name = s.name → o ≠ s → ∃ c ∈ s.cols, c ∉ dc)) :
+        ∀ s ∈ tbN.idxs, ∀ o ∈ tbO.idxs, o.name = s.name → o ≠ s → ∃ c ∈ s.cols, c ∉ dc) ∧
+      (∀ s ∈ tbN.fks, ∀ o ∈ tbO.fks, s.name = o.name → s = o)) :
     ∃ up down, modelUp g old new = .ok up ∧ modelDown g old new = .ok down ∧ c03 dbO dbN up down = .ok () := by
   have hoc : old.all Stmt.colSafe = true :=
     List.all_eq_true.mpr (fun s hs => Stmt.colSafe_of_elemSafe s (List.all_eq_true.mp ho s hs))
   have hnc : new.all Stmt.colSafe = true :=
     List.all_eq_true.mpr (fun s hs => Stmt.colSafe_of_elemSafe s (List.all_eq_true.mp hn s hs))
-  obtain ⟨d, outU, hd, hU, _, hjU⟩ := schema_spec_up g hg hio rc old new dbO dbN ho hn hpo hpn heo hen hdef hnofk
-    (fun a ha b hb e => by obtain ⟨x1, x2, x3, x4, _⟩ := hboth a ha b hb e; exact ⟨x1, x2, x3, x4⟩)
-  obtain ⟨d2, outD, hd2, hD, _, hjD⟩ := schema_spec_down g hg hio rc old new dbO dbN ho hn hpo hpn heo hen hdef hnofk
-    (fun a ha b hb e => by obtain ⟨x1, x2, x3, _, x5⟩ := hboth a ha b hb e; exact ⟨x1, x2, x3, x5⟩)
+  obtain ⟨d, outU, hd, hU, _, hjU⟩ := schema_spec_up g hg hio rc old new dbO dbN ho hn hpo hpn heo hen hdef
+    (fun a ha b hb e => by obtain ⟨x1, x2, x3, x4, _, x6⟩ := hboth a ha b hb e; exact ⟨x1, x2, x3, x4, x6⟩)
+  obtain ⟨d2, outD, hd2, hD, _, hjD⟩ := schema_spec_down g hg hio rc old new dbO dbN ho hn hpo hpn heo hen hdef
+    (fun a ha b hb e => by obtain ⟨x1, x2, x3, _, x5, x6⟩ := hboth a ha b hb e; exact ⟨x1, x2, x3, x5, x6⟩)
   have : d2 = d := by rw [hd] at hd2; exact (Except.ok.inj hd2).symm
   subst this
   obtain ⟨mo, _, hro⟩ := ReaderMysql.run_rel rc old {} [] dbO Rel.empty hoc heo
@@ -296,12 +296,13 @@ theorem schema_c03 (g : Globals) (hg : g.dialect = .mysql) (hio : g.ignoreOrder 
         rw [hfN] at hcond
         have hcond : t.equiv u = true := hcond
         have hfO : dbO.find t.name = some t := find_some_of_mem dbO hndO t htO
-        obtain ⟨_, hne, _, _, _⟩ := hboth t htO u (mem_of_find hfN) (find_name dbN _ _ hfN).symm
+        obtain ⟨_, hne, _, _, _, _⟩ := hboth t htO u (mem_of_find hfN) (find_name dbN _ _ hfN).symm
         obtain ⟨_, _, _, _, _, _, _, _, _, _, _, _, _, _, _, hNi, hOi⟩ :=
           indexes_with_drops_end_to_end' g hg hio rc old new dbO dbN ho hn heo hen d2 hd t.name t u hfO hfN hne
-        have hfkO : (t.fks.map (·.name)).Nodup := by rw [hnofk t (List.mem_append_left _ htO)]; exact List.nodup_nil
-        have hfkN : (u.fks.map (·.name)).Nodup := by
-          rw [hnofk u (List.mem_append_right _ (mem_of_find hfN))]; exact List.nodup_nil
+        obtain ⟨_, _, _, _, _, hfkN0, hfkO0⟩ :=
+          fks_with_drops_end_to_end g hg rc old new dbO dbN ho hn heo hen d2 hd t.name t u hfO hfN
+        have hfkO : (t.fks.map (·.name)).Nodup := hfkO0
+        have hfkN : (u.fks.map (·.name)).Nodup := hfkN0
         rcases List.mem_append.mp hs with h | h
         · have h1 := hjU s h
           rw [not_justified_of_equiv dbO dbN t.name t u hfO hfN hcond hOi hfkO s hts.symm] at h1
